@@ -61,6 +61,30 @@ def gen_cases(ctx, maxops, lines_out, par=False, split=None):
     return n
 
 
+MUX_KINDS = (("xmux", 1), ("xmux", 2), ("h2", 1))
+
+
+def mux_cfg(kind, nidx, maxops, trace=False, reqs="{0, 2}"):
+    if trace:
+        return ("CONSTANTS\n  Kind = \"%s\"\n  NConns = 12\n  NStreams = 12\n  NIdx = %d\n  MaxReqs = {0}\n  MaxOps = 0\n  Defects = {}\n"
+                "SPECIFICATION TraceSpec\nPOSTCONDITION Accepted\nCHECK_DEADLOCK FALSE\n") % (kind, nidx)
+    return ("CONSTANTS\n  Kind = \"%s\"\n  NConns = 8\n  NStreams = 8\n  NIdx = %d\n  MaxReqs = %s\n  MaxOps = %d\n  Defects = {}\n"
+            "SPECIFICATION Spec\nINVARIANTS EmitCase\nCHECK_DEADLOCK FALSE\n") % (kind, nidx, reqs, maxops)
+
+
+def gen_mux_cases(ctx, kind, nidx, maxops, reqs):
+    raw = os.path.join(ctx.tmp, "mraw_%s_%d_%d.jsonl" % (kind, nidx, maxops))
+    r = vlib.run_tlc(ctx, "pool", "MuxPool", "MuxPool_gen.cfg", workers=1, cases_to=raw,
+                     cfg_text=mux_cfg(kind, nidx, maxops, reqs=reqs), timeout=1500)
+    ctx.add_tlc(r)
+    out = []
+    for ln in sorted(set(open(raw).read().splitlines())):
+        c = json.loads(ln)
+        c["kind"], c["nidx"] = kind, nidx
+        out.append(json.dumps(c, sort_keys=True))
+    return out
+
+
 def mismatches(txt):
     out = []
     # TLC wraps long tuples over several lines
@@ -81,6 +105,14 @@ def run(ctx):
         rr = vlib.run_tlc(ctx, "pool", "PingPongPool", "PingPongPool_defect_%s.cfg" % d, expect_ok=False)
         if rr["ok"] or not rr["violated"]:
             raise vlib.Inconclusive("PingPongPool does not reject defect " + d)
+
+    for cfg in (("MuxPool_xmux.cfg", "MuxPool_xmux2.cfg", "MuxPool_h2.cfg") if q else
+                ("MuxPool_xmux_thorough.cfg", "MuxPool_xmux2.cfg", "MuxPool_h2_thorough.cfg")):
+        ctx.add_tlc(vlib.run_tlc(ctx, "pool", "MuxPool", cfg, timeout=1500))
+    for d in ("DestroyNotCounted", "GoAwayKeepsAccepting", "DeleteClientInGoAway", "CountOnOneway"):
+        rr = vlib.run_tlc(ctx, "pool", "MuxPool", "MuxPool_defect_%s.cfg" % d, expect_ok=False)
+        if rr["ok"] or not rr["violated"]:
+            raise vlib.Inconclusive("MuxPool does not reject defect " + d)
 
     # 2. histories for replay
     seq, deeper, par = {}, {}, {}
@@ -109,19 +141,50 @@ def run(ctx):
     vlib.log("[c09] histories: %d of depth %d (all) + %d of depth %d%s + %d with a forced close window + %d with two-step completions" % (
         len(seq), depth, len(deep_lines), depth + 1, " (sampled)" if sampled else " (all)", len(par), len(split)))
 
+    # 2b. histories for the multiplexed pools (MuxPool): all of depth mdepth, a VERIF_SEED sample one deeper
+    mdepth = 4 if q else 5
+    mcap = 2500 if q else 20000
+    mux_sampled = False
+    mux_files = {}
+    n_mux = 0
+    for kind, nidx in MUX_KINDS:
+        reqs = "{0, 2}" if q else "{0, 1, 2}"
+        lines = gen_mux_cases(ctx, kind, nidx, mdepth, reqs)
+        deep = gen_mux_cases(ctx, kind, nidx, mdepth + 1, reqs)
+        if len(deep) > mcap:
+            deep = rng.sample(deep, mcap)
+            mux_sampled = True
+        lines += deep
+        rng.shuffle(lines)
+        n_mux += len(lines)
+        pth = os.path.join(ctx.tmp, "mux-%s-%d.jsonl" % (kind, nidx))
+        with open(pth, "w") as fo:
+            fo.write("\n".join(lines) + "\n")
+        mux_files[(kind, nidx)] = pth
+    vlib.log("[c09] multiplexed pools: %d histories (depth %d all, depth %d %s) over %s" % (
+        n_mux, mdepth, mdepth + 1, "sampled" if mux_sampled else "all", ", ".join("%s/%d" % k for k in MUX_KINDS)))
+
     # 3. real pools
     binary = vlib.go_build("c09")
     shards = 8 if q else 12
     jobs = []
+    PP = ("PingPongPoolTrace", "PingPongPoolTrace.cfg", None)
     for pr in PROTOS:
         for s in range(shards):
             t = os.path.join(ctx.tmp, "hist-%s-%d.ndjson" % (pr, s))
             jobs.append(("hist", pr, t, ["-mode", "hist", "-protos", pr, "-cases", cases, "-trace", t,
-                                        "-shard", str(s), "-shards", str(shards)]))
+                                        "-shard", str(s), "-shards", str(shards)], PP))
         for s in range(2 if q else 4):
             t = os.path.join(ctx.tmp, "stress-%s-%d.ndjson" % (pr, s))
             jobs.append(("stress", pr, t, ["-mode", "stress", "-protos", pr, "-trace", t, "-shard", str(s),
-                                          "-rounds", "10" if q else "40", "-workers", "6"]))
+                                          "-rounds", "10" if q else "40", "-workers", "6"], PP))
+    mshards = 4 if q else 8
+    for (kind, nidx), pth in mux_files.items():
+        for s in range(mshards):
+            t = os.path.join(ctx.tmp, "mux-%s-%d-%d.ndjson" % (kind, nidx, s))
+            jobs.append(("mux", "%s" % kind if nidx == 1 else "%s%d" % (kind, nidx), t,
+                         ["-mode", "mux", "-protos", kind, "-cases", pth, "-trace", t, "-shard", str(s), "-shards", str(mshards)],
+                         ("MuxPoolTrace", "MuxPoolTrace_run.cfg", mux_cfg(kind, nidx, 0, trace=True))))
     with cf.ThreadPoolExecutor(max_workers=min(len(jobs), max(4, vlib.NCPU))) as ex:
         futs = [ex.submit(vlib.run_driver, ctx, binary, j[3], 1500) for j in jobs]
         for f in futs:
@@ -129,7 +192,8 @@ def run(ctx):
 
     # 4. TLC validates every recorded trace
     def validate(j):
-        return vlib.validate_trace(ctx, "pool", "PingPongPoolTrace", "PingPongPoolTrace.cfg", j[2], timeout=1500)
+        mod, cfg, txt = j[4]
+        return vlib.validate_trace(ctx, "pool", mod, cfg, j[2], timeout=1500, extra_files={cfg: txt} if txt else None)
     with cf.ThreadPoolExecutor(max_workers=max(2, vlib.NCPU // 2)) as ex:
         results = list(ex.map(validate, jobs))
 
@@ -147,7 +211,7 @@ def run(ctx):
         nhist += sum(1 for e in evs if e["ev"] == "pool")
         nops += sum(1 for e in evs if e["ev"] == "op")
         naudit += sum(1 for e in evs if e["ev"] == "audit")
-        if mode == "hist" and len(ctx.cov["samples"]) < 3 and len(evs) > 4:
+        if mode in ("hist", "mux") and len([x for x in ctx.cov["samples"] if x.get("proto") == pr]) < 1 and len(evs) > 4:
             ctx.sample({"proto": pr, "trace_head": evs[:4]})
         start_of = {}
         st = 0
@@ -169,7 +233,9 @@ def run(ctx):
         raise vlib.Inconclusive("no histories were replayed")
     ctx.cov["traces_validated_against_impl"] = nhist
     ctx.cov["evaluations"] = nops + naudit
-    ctx.cov["distinct_nontrivial"] = len(all_lines) * len(PROTOS)
+    ctx.cov["distinct_nontrivial"] = len(all_lines) * len(PROTOS) + n_mux
+    ctx.cov["mux_histories"] = n_mux
+    ctx.cov["mux_deeper_layer_sampled"] = mux_sampled
     ctx.cov["mismatch_kinds"] = kinds
     ctx.cov["exhaustive"] = True      # all histories up to the stated depth are replayed; the deeper layer is a sample when capped
     ctx.cov["deeper_layer_sampled"] = sampled
@@ -180,12 +246,19 @@ def run(ctx):
                        "into the connection's Close(); every history of that length that takes a completion in its two steps (stream destroyed with the "
                        "destroying goroutine held at the request resource / returned to the idle list) with any operation in between, and the "
                        "histories one operation longer in which that connection's close event falls between the two steps; plus %d histories one operation deeper (VERIF_SEED sample when capped); "
-                       "distinct = histories x pools") % (
-                           depth, "6 of {0,1,2}^2" if q else "{0,1,2}^2", 4 if q else 5, len(deep_lines))
+                       "distinct = histories x pools. Multiplexed pools (MuxPool): every history of length %d (and a VERIF_SEED sample / all of length %d) over "
+                       "{new (up/down, one-way, retry on the downstream context of an ended attempt), response, local reset, peer reset (h2), go-away, "
+                       "remote close, undecodable input, pool Close, Shutdown} with max_requests in %s, replayed into the xprotocol multiplex pool "
+                       "(1 and 2 client indexes) and the HTTP/2 pool") % (
+                           depth, "6 of {0,1,2}^2" if q else "{0,1,2}^2", 4 if q else 5, len(deep_lines),
+                           mdepth, mdepth + 1, "{0,2}" if q else "{0,1,2}")
     ctx.assumptions += [
         "the scripted upstream answers/closes exactly when the driver says; connect failure = a loopback port that refuses",
         "xprotocol ping-pong pool is driven with a harness codec: bolt wire format with PoolMode()=PingPong and no heartbeat",
         "go-away: HTTP/1 'Connection: close' response, xprotocol GoAway frame before the response; the upstream itself keeps the connection open",
         "truth = state of the connection objects the pool created (wrapped types.Host), connection each request arrived on at the upstream, live streams by stream event listener",
-        "multiplex / binding / HTTP2 pools are not ping-pong pools and are not driven here",
+        "multiplex pool driven with a harness codec (bolt wire format, PoolMode()=Multiplex, heartbeat on); HTTP/2 pool against a raw-frame h2c peer "
+        "(SETTINGS/PING handled, HEADERS = request, answers HEADERS+END_STREAM, RST_STREAM, GOAWAY with last-stream-id 2^31-1)",
+        "a go-away is known to be handled when a probe sent after it (heartbeat / PING) is acknowledged or the connection closes",
+        "the binding pool (connpool_binding.go) is not driven",
     ]
